@@ -9,10 +9,10 @@ from vfw import objs
 EPS = np.finfo(float).eps
 FLOOR_CLASS = {
     "Cuboid": 1e4, "Cylinder": 1e4, "Sphere": 1e4, "Dipole": 1e4, "Circle": 1e4,
-    # Polyline: the end-point terms cancel like (rho/d)^2 next to a segment's extension line (same mechanism as
-    # the Triangle's edge extensions, documented 'accuracy can be a problem at edge extensions'); measured while
-    # building C03: absolute error 8e-18 T = 7e5 eps * S at 1.6e-6 sizes from an extension line
-    "Polyline": 1e6,
+    # Polyline: was 1e6 while the end-point terms cancelled like (rho/d)^2 next to a segment's extension line
+    # (measured while building C03: 7e5 eps * S at 1.6e-6 sizes from an extension line); that cancellation was
+    # repaired in the library (fix 44e02e0), so the floor is that of the other closed-form classes again
+    "Polyline": 1e4,
     "Triangle": 1e6, "Tetrahedron": 1e6, "TriangularMesh": 1e6, "CylinderSegment": 1e8,
 }
 MU0 = 4e-7 * np.pi
